@@ -24,7 +24,7 @@ META = {
                         "random / random_with_iso / random_with_rep with n_iso in {1,2}, n_lc=2, draws owned (<=1 deviation) on all n=3 and every third n=4 graph; linear on paths 3..5, rgs on repeater graphs 4,6",
                "thorough": "connected graphs n=5 (728), n_iso up to 5, <=2 deviations"},
     "assumptions": ["targets are given as networkx graphs on vertices 0..n-1 and as QuantumState in the three representations (n<=4)",
-                    "per-call horizon 60 s"],
+                    "per-call horizon 60 s of CPU time"],
 }
 HORIZON = 60.0
 
